@@ -213,8 +213,8 @@ func (p *Parser) parseDeclarationList() GrammarType {
 		return ErrorGrammar
 	} else if p.tt == AtKeywordToken {
 		return p.parseAtRule()
-	} else if p.tt == IdentToken || p.tt == DelimToken {
-		return p.parseDeclaration()
+	} else if p.tt == IdentToken || p.tt == DelimToken || p.isStylesheet && (p.tt == HashToken || p.tt == ColonToken || p.tt == LeftBracketToken) {
+		return p.parseDeclaration() // or a nested ruleset, of which the selector may start with #id, :pseudo or [attr]
 	} else if p.tt == CustomPropertyNameToken {
 		return p.parseCustomProperty()
 	}
@@ -401,6 +401,9 @@ func (p *Parser) parseDeclaration() GrammarType {
 	var offset int // first colon offset
 	p.initBuf()
 	p.pushBuf(p.tt, p.data)
+	if p.tt == LeftBracketToken {
+		p.level++
+	}
 	for {
 		tt, data := p.popToken(false)
 		if (tt == SemicolonToken || tt == RightBraceToken) && p.level == 0 || tt == ErrorToken {
